@@ -355,8 +355,11 @@ func qrAlgorithm(inSitu *InSitu, epsilon float64) (Matrix, Matrix, error) {
       continue
     }
     // run QR steps until convergence
-    for {
+    for iter := 0; ; iter++ {
       verifhook.Tick("qrAlgorithm.block2x2")
+      if iter > 2000 {
+        return nil, nil, fmt.Errorf("QR algorithm failed to reduce a 2x2 block within %d iterations", iter)
+      }
       h11 := h.ConstAt(i  ,i  ).GetFloat64()
       h12 := h.ConstAt(i  ,i+1).GetFloat64()
       h21 := h.ConstAt(i+1,i  ).GetFloat64()
